@@ -145,8 +145,8 @@ CHECKS = {
         "of game actions taken at rest with default world answers; deviations (cost 1 each) are other outcomes of a coil pulse "
         "(falls back, does not move, arrives after the eject timeout, reaches the playfield without a switch hit), actions "
         "taken while devices are busy (drain, playfield switch, start, add ball, lock shot, plunge) and the other resolution "
-        "of a simultaneous-completion race in Util.first. All executions with <=2 (quick) / <=3 (thorough) deviations (one less "
-        "for the three long scripts) run to rest. Oracles: counts within [0, capacity] always; no pulse towards a device without room; at rest device counts = "
+        "of a simultaneous-completion race in Util.first. All executions with <=2 (quick) / <=3 (thorough: on the five one-ball "
+        "scripts, <=2 on the others) deviations (one less for the three long scripts) run to rest. Oracles: counts within [0, capacity] always; no pulse towards a device without room; at rest device counts = "
         "physical counts, playfield count = loose balls, sum = num_balls_known = balls in the machine.",
    note="Trusted: mc/world.py, the deterministic Util.first replacement in props/c04.py. Bounds: the topologies and scripts "
         "listed in the evidence, transit menu, ideal switches, ball search off, balls never vanish; executions in which a ball "
